@@ -6,15 +6,31 @@
 cd /verif
 pat=${1:-}; tier=${2:-quick}
 fail=0
-for f in selftest/mutants/*${pat}*.diff; do
+for f in /verif/selftest/mutants/*${pat}*.diff; do
   id=$(basename $f | cut -d- -f1)
   out=$(bin/gowp mutant $f $id $tier 2>&1)
   line=$(echo "$out" | grep '^MUTANT' | tail -1)
   res=$(echo "$line" | sed 's/.*result=\([a-z]*\).*/\1/')
   case "$res" in
     killed) echo "KILLED   $(basename $f .diff)  $(echo "$line" | sed 's/.*failing=\[//; s/\] aborted.*//' | cut -c1-140)";;
-    degraded) echo "DEGRADED $(basename $f .diff)  $(echo "$line" | sed 's/.*aborted=\[//' | cut -c1-140)"; deg=1;;
-    *) echo "SURVIVED $(basename $f .diff)"; echo "$out" | tail -3; fail=1;;
+    degraded) ;;
+    *) res=survived;;
   esac
+  if [ "$res" != killed ]; then
+    # not decided by the deductive part alone: run the whole check (with its bounded
+    # stand-ins) against /repo with the patch applied, and undo it straight afterwards
+    if git -C /repo diff --quiet && git -C /repo apply --check $f 2>/dev/null; then
+      git -C /repo apply $f
+      full=$(./check $id $tier 2>&1); rc=$?
+      git -C /repo apply -R $f
+      if [ $rc -eq 1 ] && echo "$full" | grep -q '^VIOLATION'; then
+        echo "KILLED   $(basename $f .diff)  [deductive part: $res] $(echo "$full" | grep '^VIOLATION' | head -1 | sed 's/.*replay=[^ ]* //' | cut -c1-110)"
+      else
+        echo "SURVIVED $(basename $f .diff)"; echo "$full" | tail -3; fail=1
+      fi
+    else
+      echo "SKIPPED  $(basename $f .diff) (/repo not clean or patch does not apply)"; fail=1
+    fi
+  fi
 done
 exit $fail
